@@ -35,8 +35,8 @@ Verdict(r) ==
      ELSE IF Judge(od, ob.default) # "" THEN "default-" \o Judge(od, ob.default)
      \* the laws, on the observation itself
      ELSE IF Clean(o) /\ (ob.glom.ok # Holds("match", t, p)) THEN "law-conforms"
-     ELSE IF ob.glom.ok /\ ~Extends(ob.glom.v, t) THEN "law-unchanged"
-     ELSE IF ob.glom.ok /\ ~HasOptDefault(p) /\ ~PyEq(ob.glom.v, t) THEN "law-unchanged"
+     ELSE IF ob.glom.ok /\ ~HasNodeDefault(p) /\ ~Extends(ob.glom.v, t) THEN "law-unchanged"
+     ELSE IF ob.glom.ok /\ ~HasNodeDefault(p) /\ ~HasOptDefault(p) /\ ~PyEq(ob.glom.v, t) THEN "law-unchanged"
      ELSE IF ~ob.glom.ok /\ ob.glom.cls = "TypeMatchError" /\ ~(ob.typeerror /\ ob.matcherror) THEN "law-typematcherror"
      ELSE IF ~ob.glom.ok /\ Clean(o) /\ ~ob.matcherror THEN "law-matcherror"
      ELSE ""
